@@ -3,7 +3,7 @@
     development step in index and inverse) makes a [spec_ok] evaluate to false. *)
 From Coq Require Import ZArith List Bool.
 From Bermuda Require Import Model.Base Model.Frame Model.MatrixIx Proofs.FrameLib Proofs.FrameKey
-     Proofs.FrameExample Proofs.FrameWide4 Proofs.FrameLong Proofs.MatrixIxP Proofs.MatrixIxP2.
+     Proofs.FrameExample Proofs.FrameWide4 Proofs.FrameLong Proofs.MatrixIxU Proofs.MatrixIxU2.
 From Coq Require Import Sorting.Permutation.
 Local Open Scope Z_scope.
 From Gen Require Import GenFrame.
